@@ -1,4 +1,5 @@
 import ZV.Model.Der0
+import ZV.Model.C19
 import ZV.Model.Time
 /-! line protocol for C19:  `c19 <op> <hex>`  and batch lines `c19 <op>* <prefix-hex> <k>`
     (all 256^k suffixes; output `n=<accepted> h=<sum of digests of the single outputs mod 1e9+7>`).
@@ -95,6 +96,58 @@ def cbUTime (s : Bytes) : One :=
   | .err => ("err", false)
   | .panic => ("panic", false)
 
+/-- string types: decoded string (hex) and the re-encoding by the matching `make…String` -/
+def eaStr (dec enc : Bytes → Res Bytes) (c : Bytes) : One :=
+  simple ((dec c).map fun v => toHex v ++ ":" ++ encStr (enc v))
+
+def cbEnum (s : Bytes) : One :=
+  cbPart "" ((CB.readEnum s).map fun (v, rest) => (toString v, rest, CB.addASN1Enum v))
+
+def cbOct (s : Bytes) : One :=
+  cbPart "" ((CB.readOctetString s).map fun (b, rest) => (toHex b, rest, CB.addASN1OctetString b))
+
+/-- `ReadASN1(&null, NULL)`; an empty body is re-encoded by `AddASN1NULL` -/
+def cbNull (s : Bytes) : One :=
+  cbPart "" ((CB.readASN1Tag s 5).map fun (b, rest) =>
+    (toString b.length, rest, if b.length = 0 then .ok CB.addASN1NULL else .err))
+
+def resStr (r : Res String) : String :=
+  match r with
+  | .ok s => "ok:" ++ s
+  | .err => "err"
+  | .panic => "panic"
+
+/-- cross-codec lines: the same content through encoding/asn1 (content parser) and through cryptobyte
+    (wrapped in a minimal element by `CB.element`) -/
+def xBoth (ea : Bytes → Res String) (tag : UInt8) (cb : Bytes → Res String) (c : Bytes) : One :=
+  let e := resStr (ea c)
+  let b := match CB.element tag c with
+    | .ok el => resStr (cb el)
+    | _ => "encerr"
+  ("ea=" ++ e ++ " cb=" ++ b, e != "err" || b != "err")
+
+def xInt : Bytes → One :=
+  xBoth (fun c => (EA.parseInt64 c).map toString) 2 (fun s => (CB.readInt64 s).map fun (v, _) => toString v)
+def xBig : Bytes → One :=
+  xBoth (fun c => (EA.parseBigInt c).map toString) 2 (fun s => (CB.readBigInt s).map fun (v, _) => toString v)
+def xOID : Bytes → One :=
+  xBoth (fun c => (EA.parseObjectIdentifier c).map oidStr) 6 (fun s => (CB.readOID s).map fun (v, _) => oidStr v)
+def xBits : Bytes → One :=
+  xBoth (fun c => (EA.parseBitString c).map fun v => toString v.bitLength ++ "/" ++ toHex v.bytes) 3
+    (fun s => (CB.readBitString s).map fun (v, _) => toString v.bitLength ++ "/" ++ toHex v.bytes)
+def xBool : Bytes → One :=
+  xBoth (fun c => (EA.parseBool c).map fun v => if v then "t" else "f") 1
+    (fun s => (CB.readBool s).map fun (v, _) => if v then "t" else "f")
+
+/-- header through both: class*64+compound*32+tag, content length, header length -/
+def xHdr (s : Bytes) : One :=
+  let e := resStr ((EA.parseTagAndLength s).map fun (t, rest) =>
+    toString (t.cls * 64 + (if t.compound then 32 else 0) + t.tag) ++ ":" ++ toString t.length ++ ":" ++
+      toString (s.length - rest.length))
+  let b := resStr ((CB.readASN1 s).map fun el =>
+    toString el.tag.toNat ++ ":" ++ toString el.body.length ++ ":" ++ toString el.headerLen)
+  ("ea=" ++ e ++ " cb=" ++ b, e != "err" || b != "err")
+
 def opOf (op : String) : Option (Bytes → One) :=
   match op with
   | "ea-int" => some eaInt | "ea-bool" => some eaBool | "ea-oid" => some eaOID
@@ -102,6 +155,13 @@ def opOf (op : String) : Option (Bytes → One) :=
   | "cb-int" => some cbInt | "cb-bool" => some cbBool | "cb-oid" => some cbOID
   | "cb-bits" => some cbBits | "cb-any" => some cbAny
   | "cb-gtime" => some cbGTime | "cb-utime" => some cbUTime
+  | "ea-num" => some (eaStr EA.parseNumericString EA.makeNumericString)
+  | "ea-prt" => some (eaStr EA.parsePrintableString EA.makePrintableString)
+  | "ea-ia5" => some (eaStr EA.parseIA5String EA.makeIA5String)
+  | "ea-t61" => some (eaStr EA.parseT61String (fun b => .ok b))
+  | "cb-enum" => some cbEnum | "cb-oct" => some cbOct | "cb-null" => some cbNull
+  | "x-int" => some xInt | "x-big" => some xBig | "x-oid" => some xOID | "x-bits" => some xBits
+  | "x-bool" => some xBool | "x-hdr" => some xHdr
   | _ => none
 
 def digest (s : String) : Nat :=
